@@ -20,7 +20,7 @@ REQUIRED_CLASSES = {t: ["analyzer:Elementary", "analyzer:Probit", "analyzer:MaxL
                         "data:fracture_below_highest_runout"]
                     for t in ("quick", "thorough")}
 REQUIRED_MONITORS = ["load_scaling:SD*c,rest_unchanged", "cycle_scaling:ND*c,rest_unchanged", "row_permutation:identical",
-                     "exact_data:k_1_exact", "exact_data:TN==TS==1", "zones_partition_at_transition", "loglik(MaxLike)>=loglik(Elementary)"]
+                     "exact_data:k_1_exact", "exact_data:TN==TS==1", "zones_partition_at_transition", "loglik(MaxLike)>=loglik(Elementary)", "likelihood_equivariant"]
 RULE = ("seeded synthetic fatigue test series (Basquin curve + log-normal scatter; 3..5 finite-life levels, 2..4 levels around the "
         "endurance limit with mixed fractures and run-outs, run-out limit 1e7) analysed by Elementary, Probit, MaxLikeInf and "
         "MaxLikeFull; each data set is re-analysed after scaling the loads, scaling the cycles (dyadic factors) and permuting the "
@@ -167,12 +167,23 @@ def run_case(case, ctx):
                 exp[k] = exp[k] * f
             ok_, key = _same(other, exp, 1e-9 if exact_method else 1e-5)
             detail = {"analyzer": name, "differs_in": key, "base": {k: float(base[k]) for k in KEYS}, "other": {k: float(other[k]) for k in KEYS}}
-            if not ok_ and not exact_method:
-                # optimiser answers: as likely as the directly computed estimate under the transformed data?
-                l_direct, l_mapped = loglik(other_df, other), loglik(other_df, exp)
-                detail["loglik"] = [l_direct, l_mapped]
-                ok_ = abs(l_direct - l_mapped) <= 2e-3
-            ctx.check(monitor, ok_, observed=detail["other"], expected={k: float(exp[k]) for k in KEYS}, detail=detail)
+            tags = []
+            if not exact_method:
+                # the likelihood itself must be equivariant: the mapped estimate is as likely under the transformed data as the
+                # base estimate under the original data (a unit-dependent code path in the likelihood breaks this)
+                l_base, l_mapped = loglik(df, base), loglik(other_df, exp)
+                ctx.check("likelihood_equivariant", abs(l_base - l_mapped) <= 1e-9 * abs(l_base) + 1e-8, observed=l_mapped, expected=l_base,
+                          detail={"analyzer": name, "relation": monitor})
+                if not ok_:
+                    # optimiser answers: as likely as the directly computed estimate under the transformed data?
+                    l_direct = loglik(other_df, other)
+                    detail["loglik"] = {"direct": l_direct, "mapped": l_mapped}
+                    ok_ = abs(l_direct - l_mapped) <= 2e-3
+                    if not ok_ and abs(l_base - l_mapped) <= 1e-9 * abs(l_base) + 1e-8:
+                        # equivariant likelihood, different maxima reached: Nelder-Mead (absolute xatol/fatol) stopped in
+                        # different (local) optima for the two unit systems / row orders
+                        tags = ["c18_neldermead_reaches_different_optimum"]
+            ctx.check(monitor, ok_, observed=detail["other"], expected={k: float(exp[k]) for k in KEYS}, tags=tags, detail=detail)
 
         ctx.tag("relation:load_scaling", "relation:cycle_scaling", "relation:row_permutation")
         d2 = df.copy()
